@@ -203,11 +203,17 @@ class HSMCertificateV2ElementSGXAttestationKey(HSMCertificateV2Element):
         return ecdsa.VerifyingKey.from_string(self._key, ecdsa.NIST256p)
 
     def to_dict(self):
+        try:
+            key = self.key.to_string("uncompressed").hex()
+        except Exception:
+            # Not a valid key (such an element never validates): keep it as it is
+            key = self._key.hex()
+
         return {
             "name": self.name,
             "type": "sgx_attestation_key",
             "message": self._message.hex(),
-            "key": self.key.to_string("uncompressed").hex(),
+            "key": key,
             "auth_data": self.auth_data,
             "signature": self.signature,
             "signed_by": self.signed_by,
